@@ -145,6 +145,24 @@ def _is_fresh_expr(repo, fi, v, idx, fresh):
     return False
 
 
+def callee_of(repo, fi, call):
+    """FuncInfo of the analysed function a call names (module-level function, or method through self / cls); None
+    for anything else (builtins, third-party, computed callees)."""
+    f = call.func if isinstance(call, ast.Call) else None
+    try:
+        if isinstance(f, ast.Name):
+            kind, m, obj = repo.resolve(fi.mod, f.id)
+            if kind == 'func' and m is not None and not m.external:
+                return obj
+        elif isinstance(f, ast.Attribute) and isinstance(f.value, ast.Name) and f.value.id in ('self', 'cls') and fi.cls is not None:
+            meth = repo.find_method(fi.cls, f.attr)
+            if meth is not None and not meth.mod.external:
+                return meth
+    except Exception:
+        return None
+    return None
+
+
 def returns_fresh(repo, fi, _depth=0):
     """Every ``return`` of an analysed function hands out an object allocated in that activation (a literal, a
     container constructor call, a concatenation, or a local that only ever holds such objects) -- the caller's local
